@@ -333,6 +333,23 @@ func c16(r *rep.Run) {
 			MkProg(term.Op("and", B, term.Op("or", B, z(), o()), o(), term.Op("p", B, z()))),
 			MkProg(term.Op("or", B, term.Op("=", B, nv(), term.Const(1)), z())))
 	}
+	// variadic operators that are NOT and/or (xor, n-ary =, +, a registered
+	// variadic one): their operand order is never touched, whatever the costs
+	{
+		o := func() *term.Term { return term.Var("b", B) }
+		nv := func() *term.Term { return term.Var("n", I) }
+		cmp := func() *term.Term { return term.Op("=", B, nv(), term.Const(1)) }
+		progs = append(progs,
+			MkProg(term.Op("xor", B, cmp(), o(), term.Op("p", B, o()))),
+			MkProg(term.Op("xor", B, o(), term.Op("not", B, o()), cmp(), o())),
+			MkProg(term.Op("xor", B, term.Op("p", B, o()), o())),
+			MkProg(term.Op("and", B, term.Op("xor", B, cmp(), o()), o())),
+			MkProg(term.Op("or", B, o(), term.Op("xor", B, term.Op("p", B, o()), o(), o()))),
+			MkProg(term.If(term.Op("xor", B, cmp(), o()), o(), o())),
+			MkProg(term.Op("xor", B, term.Op("and", B, cmp(), o()), o(), term.Op("or", B, term.Op("p", B, o()), o()))),
+			MkProg(term.Op("=", B, term.Op("+", I, term.Op("cat", I, nv(), term.Const(1), nv()), term.Const(2), nv()), nv(), term.Const(3))),
+			MkProg(term.Op("and", B, o(), term.Op("=", B, term.Op("cat", I, term.Op("+", I, nv(), nv()), nv(), term.Const(1)), term.Const(4)))))
+	}
 	// wide families
 	for _, k := range []int{2, 3, 5, 8, 11, 12, 13, 14, 16, 20, 25, 33, 40} {
 		kids := make([]*term.Term, k)
